@@ -295,8 +295,9 @@ def apply_ops(rec, hist, soft=False):
             rr = ctxmodel_parse(name, hs).rounds
             want = bool((nrec["min"] and rr < nrec["min"]) or (nrec["max"] and rr > nrec["max"]) or ctxmodel.scheme_flag(name if name != "ldap_sha256_crypt" else "sha256_crypt", hs))
             if name == "scrypt":
-                # documented in the source: hashes whose block size is not the hasher's configured one are flagged as well
-                want = want or (ctxmodel_parse(name, hs).block_size != (nrec["extra"].get("block_size") or 8))
+                # documented in the source: hashes whose block size / parallelism is not the hasher's configured one are flagged as well
+                po = ctxmodel_parse(name, hs)
+                want = want or po.block_size != (nrec["extra"].get("block_size") or 8) or po.parallelism != (nrec["extra"].get("parallelism") or 1)
             st, got = call(obj.needs_update, hs)
             if st == "err" or got is not want:
                 rec.fail(f"C09/needs-update/{name}", f"needs_update() of a hash with {rr} rounds is {got!r}; the node's window is [{nrec['min']}, {nrec['max']}]", "history", sub, repr(got), want, soft=soft)
